@@ -103,7 +103,7 @@ def run(ck):
             return b"\x00" * n
         return b"\xff" * n
 
-    def judge(codec, op, v, m, decode, encode, classify=None, eq=None):
+    def judge(codec, op, v, m, decode, encode, classify=None, eq=None, lenient_name=None):
         """DESIGN §5 C38 oracle for a mutated encoding m of v."""
         ck.mon("mutation-oracle")
         ck.hit("mutation:%s:%s" % (codec, op))
@@ -116,7 +116,7 @@ def run(ck):
             return "rejected"
         same = eq(d, v) if eq else d == v
         if same:
-            ck.skip("lenient-accept:%s:%s" % (codec, op))
+            ck.skip(lenient_name or "lenient-accept:%s:%s" % (codec, op))
             return "lenient"
         try:
             e = encode(d)
@@ -326,6 +326,25 @@ def run(ck):
                     judge("base62", op, v, m, base62.a2b, base62.b2a, classify)
                     ck.case("base62-mutant", key=(v, op, m), nontrivial=True)
 
+    # ------------------------------------------------ exhaustive byte insertion around decimal fields
+    def insertions(field):
+        """every byte value 0..255 inserted before, between and after the digits of a decimal field."""
+        for j in range(len(field) + 1):
+            where = "before" if j == 0 else "after" if j == len(field) else "between"
+            for b in range(256):
+                yield where, b, field[:j] + bytes([b]) + field[j:]
+
+    def judge_insertion(codec, fieldname, where, b, v, mm, decode, encode, classify=None, eq=None):
+        """Same oracle as every other mutant.  A string that is accepted and read as the value it was derived
+        from is a lenient accept (statement and DESIGN §5 C38 leave it open): counted under
+        lenient-accept-same-value, with the byte that was tolerated recorded as an observation."""
+        r = judge(codec, "insert-byte-%s-%s" % (where, fieldname), v, mm, decode, encode, classify, eq,
+                  lenient_name="lenient-accept-same-value:%s:%s:%s" % (codec, fieldname, where))
+        if r == "lenient":
+            ck.observe("tolerated-byte:%s:%s:%s:0x%02x" % (codec, fieldname, where, b))
+        ck.hit("exhaustive-insertion:%s:%s" % (codec, fieldname))
+        return r
+
     # ================================================================ netstrings
     def netstring_section():
         def enc_list(xs):
@@ -359,6 +378,8 @@ def run(ck):
             i = rng.randrange(len(m))
             yield "flip-random-byte", m[:i] + bytes([m[i] ^ (1 << rng.randrange(8))]) + m[i + 1:]
 
+        n_exhaustive = 6 if quick else 40          # per shard
+        done_exhaustive = [0]
         n_cases = 500 if quick else 30000
         for i in range(n_cases):
             if not mine():
@@ -424,6 +445,16 @@ def run(ck):
                 judge("netstring", op, v, mm,
                       lambda x: ns.split_netstring(x, k, required_trailer=b"")[0], enc_list)
                 ck.case("netstring-mutant", key=(tuple(v), op, mm), nontrivial=True)
+            if done_exhaustive[0] < n_exhaustive:
+                done_exhaustive[0] += 1
+                encs = [ns.netstring(x) for x in v]
+                for idx_, e_ in enumerate(encs):
+                    field = str(len(v[idx_])).encode()
+                    for where, b, nf in insertions(field):
+                        mm = b"".join(encs[:idx_]) + nf + e_[len(field):] + b"".join(encs[idx_ + 1:])
+                        judge_insertion("netstring", "length", where, b, v, mm,
+                                        lambda x: ns.split_netstring(x, k, required_trailer=b"")[0], enc_list)
+                        ck.case("netstring-insertion", key=(tuple(v), idx_, where, b), nontrivial=True)
 
     # ================================================================ URI extension block
     INTKEYS = ("size", "segment_size", "num_segments", "needed_shares", "total_shares")   # URI-extension.rst
@@ -593,6 +624,8 @@ def run(ck):
                                  ("int-negative", b"-" + qv)):
                     yield name, b"".join(ps[:qi]) + qk + b":" + str(len(nv)).encode() + b":" + nv + b"," + b"".join(ps[qi + 1:])
 
+        n_exhaustive = 3 if quick else 25           # per shard
+        done_exhaustive = [0]
         n_cases = 300 if quick else 15000
         for i in range(n_cases):
             if not mine():
@@ -636,6 +669,23 @@ def run(ck):
                     continue
                 judge("ueb", op, v, mm, uri.unpack_extension, uri.pack_extension, classify, eq)
                 ck.case("ueb-mutant", key=(m, op, mm), nontrivial=True)
+            if done_exhaustive[0] < n_exhaustive:
+                done_exhaustive[0] += 1
+                ps = pieces_of(m)
+                for pi, p in enumerate(ps):
+                    key, num, rest = p.split(b":", 2)
+                    pre = b"".join(ps[:pi]); post = b"".join(ps[pi + 1:])
+                    for where, b, nf in insertions(num):
+                        mm = pre + key + b":" + nf + b":" + rest + post
+                        judge_insertion("ueb", "length", where, b, v, mm, uri.unpack_extension, uri.pack_extension, classify, eq)
+                        ck.case("ueb-insertion", key=(m, pi, "len", where, b), nontrivial=True)
+                    if key.decode() in INTKEYS:
+                        val = rest[:-1]
+                        for where, b, nv in insertions(val):
+                            mm = pre + key + b":" + str(len(nv)).encode() + b":" + nv + b"," + post
+                            judge_insertion("ueb", "integer-value", where, b, v, mm, uri.unpack_extension,
+                                            uri.pack_extension, classify, eq)
+                            ck.case("ueb-insertion", key=(m, pi, "int", where, b), nontrivial=True)
 
     # ================================================================ lease records
     def lease_section():
@@ -976,7 +1026,9 @@ def run(ck):
                      "immutable-container-roundtrip-v1", "immutable-container-roundtrip-v2",
                      "mutable-container-roundtrip-v1", "mutable-container-roundtrip-v2",
                      "rejects:base32", "rejects:netstring", "rejects:ueb", "rejects:immutable-header",
-                     "rejects:mutable-header", "lease-out-of-range-refused")
+                     "rejects:mutable-header", "lease-out-of-range-refused",
+                     "exhaustive-insertion:ueb:length", "exhaustive-insertion:ueb:integer-value",
+                     "exhaustive-insertion:netstring:length")
     ck.exhaustive = False
     ck.assumptions.append("a decoded value that re-encodes to the mutated bytes is a legitimate reading of those bytes")
     ck.assumptions.append("python is not run with -O: several decoders reject malformed input with assert (counted as observations)")
@@ -993,3 +1045,9 @@ def run(ck):
 #  6. storage/immutable_schema.schema_from_version: unknown version -> newest      -> caught (immutable-header-misread:unknown-version-3 ...)
 #  7. storage/lease_schema v2: cancel secret stored in clear                       -> caught (lease-layout-differs, *-container-roundtrip-mismatch)
 #  8. storage/lease.to_mutable_data: owner_num & 0xffffffff                        -> caught (lease-field-out-of-range-wraps)
+#  9. uri.unpack_extension: length field parsed leniently into ANOTHER number (b"x" read as "1")   -> caught only by the
+#     exhaustive byte-insertion generator (ueb-misread:insert-byte-after-length)
+# 10. seeded/C38-2 (length check `^NUMBER$` lets "<digits>\n" through; int(b"32\n") == 32)     -> NOT caught, by design:
+#     the mangled block is read as the SAME value, which the statement ("rejected rather than silently read as a
+#     different value") and DESIGN §5 C38 leave open.  The generator reaches it and records it:
+#     dont_care lenient-accept-same-value:ueb:length:after, observation tolerated-byte:ueb:length:after:0x0a
